@@ -88,6 +88,17 @@ def check_model(case):
             f = cmp_node(r, d, f'{name} of node {k}')
             if f:
                 return Fail('derived/' + f.signature + '/' + name, f.detail)
+    # the mask a cell REPORTS is also the one its serialisation carries (bits 5..7 of d1): the library's bag of the root is read
+    # by the independent strict decoder, which recomputes every cell's mask from its kind and children
+    ok, own = call(lib[-1].to_boc)
+    if ok:
+        try:
+            h = refboc.decode_strict(bytes(own))
+            if h['root_cells'][0].repr_hash() != cells[-1].repr_hash():
+                return Fail('serialised/root-hash-differs', f'route={route}')
+        except refboc.RefBocError as e:
+            import re
+            return Fail('serialised/nonconforming/' + re.sub(r'[0-9]+', '#', str(e))[:50], f'route={route}: {e}')
     # parse a reference-encoded BoC of the root
     boc = refboc.encode([cells[-1]], has_crc=True)
     ok, parsed = call(Cell.one_from_boc, boc)
